@@ -23,6 +23,7 @@ import (
 	"encoding/base64"
 	"errors"
 	"fmt"
+	"math"
 	"time"
 
 	"github.com/lestrrat-go/jwx/v2/jwa"
@@ -235,6 +236,9 @@ func parseLamportClock(transaction *transaction, headers jws.Headers, _ *jws.Mes
 		// won't happen since it's a critical header, but we need to check the cast anyway
 		return transactionValidationError(missingHeaderErrFmt, lamportClockHeader)
 	} else if lcAsFloat64, ok := lcAsInterf.(float64); !ok {
+		return transactionValidationError(invalidHeaderErrFmt, lamportClockHeader)
+	} else if lcAsFloat64 < 0 || lcAsFloat64 > math.MaxUint32 || lcAsFloat64 != math.Trunc(lcAsFloat64) {
+		// must be an unsigned 32 bits integer: converting any other float64 truncates it, or yields an implementation-dependent value
 		return transactionValidationError(invalidHeaderErrFmt, lamportClockHeader)
 	} else {
 		transaction.lamportClock = uint32(lcAsFloat64)
